@@ -455,14 +455,17 @@ class ConnectionConditions:
                     timeout,
                 )
             except asyncio.TimeoutError:
-                for future, message in futures.items():
-                    if not future.done():
-                        if self.fail_info is None:
-                            info = f"bad sequence of commands ({message})"
-                        else:
-                            info = self.fail_info
-                        connection.response(self.fail_code, info)
-                        return True
+                pass
+            # (looked at again after the wait: what was waited for may have
+            # been taken by another command that waited for it as well)
+            for name, message in self.fields:
+                if not connection[name].done():
+                    if self.fail_info is None:
+                        info = f"bad sequence of commands ({message})"
+                    else:
+                        info = self.fail_info
+                    connection.response(self.fail_code, info)
+                    return True
             return await f(cls, connection, rest, *args)
 
         return wrapper
